@@ -387,6 +387,9 @@ impl SmartCalc {
 
         if session.has_value() {
             results.status = true;
+
+            /* The whole text is evaluated against a single reading of the clock */
+            session.freeze_clock();
             loop {
                 let line_result = self.execute_text(session);
                 results.lines.push(line_result);
@@ -394,6 +397,7 @@ impl SmartCalc {
                     break;
                 }
             }
+            session.release_clock();
         }
 
         results
